@@ -864,3 +864,7 @@ M("C03", "benign-verify-in-thread-under-lock", "benign",
 M("C04", "revert-fix-titan-consult-url-with-params", "breaking",
   [(P, "GeminiServerProtocol._process_titan_upload", "self.titan_request.parsed_url.normalized,", "self.titan_request.normalized_url,")],
   "M3:server.protocol:GeminiServerProtocol._process_titan_upload:consult-url")
+
+M("C13", "eof-keeps-connection-open", "breaking",
+  [(CP, "GeminiClientProtocol.eof_received", "        return False  # Don't keep connection open\n", "        return True\n")],
+  "E7:client.protocol:GeminiClientProtocol.eof_received:keeps-half-closed-connection")
